@@ -11,4 +11,4 @@ for k in 1 2 3; do
   case "$out" in KEPT*) kept="$kept $sid";; esac
 done
 git -C /repo worktree remove --force /tmp/seed/$p-$r
-[ -n "$kept" ] && (cd /verif && nohup python3 tools/run_seeds.py $kept >> /tmp/lead/r4.out 2>&1 &)
+[ -n "$kept" ] && (cd /verif && nohup python3 tools/run_seeds.py $kept >> /tmp/lead/${RLOG:-r5}.out 2>&1 &)
